@@ -181,6 +181,8 @@ CONSTANTS
   WithInserts = %s
   WithHist = %s
   WithRollback = %s
+  WithText = %s
+  Enc = "%s"
 INVARIANTS %s LocalEffect Convergence
 %sCHECK_DEADLOCK FALSE
 """
@@ -196,13 +198,16 @@ def gen_doc(run, variants):
         keys = var[5] if len(var) > 5 else '"k1"'
         whist = var[6] if len(var) > 6 else False
         wrb = var[7] if len(var) > 7 else False
+        tenc = var[8] if len(var) > 8 else None
         # num = 0: exhaustive search with transition coverage (one behaviour per (state, incoming
         # transition) pair); otherwise random simulation of num traces
         exh = num <= 0
-        view = "StateView" if num < 0 else "TransitionView"
+        pathcov = (var[9] if len(var) > 9 else False) or bool(tenc)
+        view = "StateView" if num < 0 else ("PathView" if pathcov else "TransitionView")
         cfg = GEN_DOC_CFG % (reps, depth, keys, "TRUE" if withlist else "FALSE",
                              "TRUE" if inserts else "FALSE", "TRUE" if whist else "FALSE",
-                             "TRUE" if wrb else "FALSE", "EmitAll" if exh else "Emit",
+                             "TRUE" if wrb else "FALSE", "TRUE" if tenc else "FALSE", tenc or "cp",
+                             "EmitAll" if exh else "Emit",
                              ("VIEW %s\n" % view) if exh else "")
         behs, r = tlc_behaviours("Doc.tla", cfg, os.path.join(run.work, "gendoc"), {}, num, depth + 1,
                                  run.seed + vi, exhaustive=exh, workers=4 if exh else 1)
@@ -213,7 +218,7 @@ def gen_doc(run, variants):
         with open(bp, "w") as f:
             f.write("\n".join(behs) + "\n")
         outp = os.path.join(run.work, f"rep-doc-{vi}.json")
-        replay_bin(["doc", bp, outp] + (["list"] if withlist else []))
+        replay_bin(["doc", bp, outp] + (["text:" + tenc] if tenc else (["list"] if withlist else [])))
         res = json.load(open(outp))
         total += res["behaviours"]
         run.cov["evaluations"] += res["steps"]
@@ -240,10 +245,15 @@ def gen_doc(run, variants):
 def c02(run):
     if run.tier == "quick":
         gen_doc(run, [("1, 2", 6, False, 0), ("1, 2", 3, True, 0), ("1, 2, 3", 6, True, 10),
-                      ("1, 2, 3", 5, True, 40, False, "")])
+                      ("1, 2, 3", 5, True, 40, False, ""),
+                      # delivery-path coverage (states distinguished by which ops each merge delivered)
+                      ("1, 2", 5, False, 0, True, '"k1"', False, False, None, True),
+                      ("1, 2", 4, True, 0, False, '', False, False, None, True)])
     else:
         gen_doc(run, [("1, 2", 7, False, 0), ("1, 2", 4, True, 0), ("1, 2, 3", 5, False, 0),
-                      ("1, 2, 3", 4, True, 0, False, ""), ("1, 2, 3", 7, True, 150)])
+                      ("1, 2, 3", 4, True, 0, False, ""), ("1, 2, 3", 7, True, 150),
+                      ("1, 2", 6, False, 0, True, '"k1"', False, False, None, True),
+                      ("1, 2", 5, True, 0, False, '', False, False, None, True)])
     run.cov["rule"] = ("seeded random multi-replica editing programs (maps, lists, text, counters, nested objects, "
                        "concurrent puts/inserts/deletes/increments, merges, out-of-order deliveries, forks, save/load); "
                        "after every event Interp(ops of applied changes) must equal the projected view; non-trivial = "
@@ -686,8 +696,16 @@ def c24(run):
                        "index/del arguments act in units (Trace_Seq); grapheme clusters made of several code points form a "
                        "separate family (known finding); non-trivial = scenario under a multi-unit encoding whose text "
                        "holds a multi-unit character")
-    rich_trace(run, "textenc", sizes(run, 100, 2500), [("Trace_Interp.tla", ["C24"]), ("Trace_Seq.tla", ["C24"])], has_multiunit)
-    rich_trace(run, "cursortext", sizes(run, 40, 1000), [("Trace_Interp.tla", ["C24"])], has_multiunit)
+    # spec -> impl: Doc.tla text variant (characters overwritten by put, deleted, inserted; conflicted characters
+    # whose values have different widths), every delivery path of every program of the bounded model
+    if run.tier == "quick":
+        gen_doc(run, [("1, 2", 5, False, 0, False, '', False, False, "u16")])
+    else:
+        gen_doc(run, [("1, 2", 6, False, 0, False, '', False, False, "u16"), ("1, 2", 5, False, 0, False, '', False, False, "u8"),
+                      ("1, 2", 4, False, 0, True, '', False, False, "u8")])
+    rich_trace(run, "textenc", sizes(run, 80, 2500), [("Trace_Interp.tla", ["C24"]), ("Trace_Seq.tla", ["C24"])], has_multiunit)
+    rich_trace(run, "textconf", sizes(run, 40, 1500), [("Trace_Interp.tla", ["C24"])], has_multiunit)
+    rich_trace(run, "cursortext", sizes(run, 30, 1000), [("Trace_Interp.tla", ["C24"])], has_multiunit)
     rich_trace(run, "grapheme", sizes(run, 25, 600), [("Trace_Interp.tla", ["C24"])], has_multiunit)
 
 
